@@ -5726,6 +5726,7 @@ evdns_getaddrinfo_fromhosts(struct evdns_base *base,
 		ai_new = evutil_new_addrinfo_(&e->addr.sa, e->addrlen, hints);
 		if (!ai_new) {
 			n_found = 0;
+			EVDNS_UNLOCK(base);
 			goto out;
 		}
 		/* without a socktype in the hints we get a TCP and a UDP record */
